@@ -391,6 +391,15 @@ func (c *Chain) Concrete(name string) string {
 	if v, ok := c.concr[name]; ok {
 		return v
 	}
+	// a process that did not create a sid did (a restarted or re-initialised replica) finds it on chain by its key
+	if isSidDoc(name) && c.App != nil {
+		if id := c.sidDocId(name); id != "" {
+			if sidOfDoc(name) == name {
+				return "did:sid:" + id
+			}
+			return id
+		}
+	}
 	return name
 }
 
